@@ -79,7 +79,8 @@ ObsOf(pan, op, dd, gm, sm, ss, dk) ==
       gberr |-> IF isopen /\ dk["b"] = 0 THEN "any" ELSE "none",
       s1 |-> rs("s1"), s2 |-> rs("s2"),
       file |-> isopen,                               \* a count file exists iff Open succeeded
-      d |-> IF isopen THEN dk ELSE Zero]
+      d |-> IF isopen THEN dk ELSE Zero,
+      recs |-> IF isopen THEN {n \in NM : dk[n] > 0} ELSE {}]   \* names that have a record: exactly those something was added to
 
 Init ==
   /\ mode \in Modes
